@@ -313,7 +313,7 @@ def gen_spiral(rng):
 
 
 def generate(rng, tier):
-    n_full, n_spiral = {"quick": (420, 60), "escalated": (1500, 200), "thorough": (6000, 800)}[tier]
+    n_full, n_spiral = {"quick": (420, 60), "escalated": (1500, 200), "thorough": (3600, 400)}[tier]
     cases, counter = [], [rng.randrange(len(KINDS) * 3)]
     while len(cases) < n_full:
         cases += gen_injected(rng, counter)
@@ -615,6 +615,25 @@ def classify(case, obs):
     if case.get("mode") == "full":
         tag += ":recovered" if recovered(case, obs) else ":not-recovered"
     return tag
+
+
+def neighbours(case, rng):
+    """cases near a mismatching one: the other trace setting, prefixes of the request sequence, every switch off"""
+    out = []
+    c = copy.deepcopy(case)
+    c["cfg"] = {"trace": not (case.get("cfg") or {}).get("trace")}
+    out.append(c)
+    n = len(case["requests"])
+    for k in sorted({n - 1, n - 2, n // 2, max(1, n // 3)}):
+        if 0 < k < n:
+            c = copy.deepcopy(case)
+            c["requests"] = case["requests"][:k]
+            out.append(c)
+    c = copy.deepcopy(case)
+    c["sys"]["switches"] = []
+    c["requests"] = [r for r in case["requests"] if r[0] != "switch"]
+    out.append(c)
+    return out
 
 
 def shrink(case, still_fails):
